@@ -72,7 +72,7 @@ func DefaultRefNameResolver(doc *T, ref ComponentRef) string {
 		if doc.url != nil {
 			commonDir := path.Dir(doc.url.Path)
 			for {
-				if commonDir == "." { // no common prefix
+				if commonDir == "." || commonDir == "/" { // no common prefix
 					break
 				}
 
